@@ -48,7 +48,7 @@ def rule_construct(ctx, F, label="lib", prefix="C14"):
         ctx.violation(rule, f"{CARD_PAIR}|public-field", "a field of CardPair is public: code outside the crate can build or mutate un-normalised pairs")
     else:
         ctx.ok(rule, "both fields of CardPair are private")
-    ctx.floor("CardPair constructions", n, 2)
+    ctx.floor("CardPair constructions", n, 1)
 
 
 def rule_new(ctx, F, prefix="C14"):
@@ -61,6 +61,24 @@ def rule_new(ctx, F, prefix="C14"):
     except dtree.NotLoopFree:
         raise U(rule, "CardPair::new contains a loop", fn)
     n = 0
+    rpaths = [p for p in paths if p.end == "return"]
+    if len(rpaths) == 1 and not rpaths[0].conds:
+        # branch-free form: CardPair(left.min(right), left.max(right)) under Card's (derived, total) order
+        leaf = dtree.last_assign(fn, rpaths[0], 0, pr)
+        if leaf and leaf[0] == "agg" and leaf[1] == f"adt:{CARD_PAIR}::CardPair" and len(leaf[2]) == 2:
+            a, b = [P.strip(x, calls=False) for x in leaf[2]]
+
+            def mm(t, name):
+                return t[0] == "call" and t[1] == "std::cmp::Ord::" + name and len(t[2]) == 2 and \
+                    {P.strip(t[2][0]), P.strip(t[2][1])} == {("param", 1), ("param", 2)}
+            if mm(a, "min") and mm(b, "max"):
+                # resolved through Card's Ord (no override of min/max: the impl is derived, C14.derived-impls)
+                ctx.ok(rule, "(min(left, right), max(left, right))", sample=True, n=2)
+                return
+            if mm(a, "max") and mm(b, "min"):
+                ctx.violation(rule, f"{fn.path}|order-minmax", "the pair is stored as (max, min): the larger card comes first",
+                              fn=fn.path, file=fn.file, line=fn.line, construct="leaf of CardPair::new")
+                return
     for p in paths:
         if p.end != "return":
             continue
